@@ -79,14 +79,14 @@ theorem isStoredCore_cacheStep {H : String → K} (hH : HashInj H) {ctx : Ctx K}
     CacheStep ctx.registry ctx.config (contextHash Rules.fixed H ctx.registry ctx.config) ctx.cache
       (isStoredCore Rules.fixed H ctx s d).2 := by
   rw [isStoredCore_snd]
-  exact (getPlugin_spec _ _ d ctx.cache (hi.goodCache hH)).toCacheStep
+  exact (getPlugin_spec hi.1 _ _ d ctx.cache (hi.goodCache hH)).toCacheStep
 
 /-- if `isStoredCore` answers at all, the plugin of `d` is in the cache it returns -/
 theorem isStoredCore_ok {H : String → K} (hH : HashInj H) {ctx : Ctx K} (hi : CtxInv H ctx)
     (s : List (Item K)) (d : String) (b : Bool) (h : (isStoredCore Rules.fixed H ctx s d).1 = .ok b) :
     ∃ m inst ff, (isStoredCore Rules.fixed H ctx s d).2 = some (contextHash Rules.fixed H ctx.registry ctx.config, m) ∧
       m.lookup d = some inst ∧ GoodMap ctx.registry ctx.config m ∧ findOpts ctx.registry ctx.fuzzyFor = .ok ff := by
-  have hs := getPlugin_spec (contextHash Rules.fixed H ctx.registry ctx.config) (fuelOf ctx.registry) d ctx.cache
+  have hs := getPlugin_spec hi.1 (contextHash Rules.fixed H ctx.registry ctx.config) (fuelOf ctx.registry) d ctx.cache
     (hi.goodCache hH)
   rw [isStoredCore_fst] at h
   rw [isStoredCore_snd]
@@ -136,34 +136,27 @@ theorem stepCtx_inv {H : String → K} (hH : HashInj H) {ctx : Ctx K} (hi : CtxI
     CtxInv H (stepCtx Rules.fixed H ctx s op).2.1 ∧ StorageInv H (stepCtx Rules.fixed H ctx s op).2.2 := by
   cases op with
   | setConfig kvs =>
-    refine ⟨⟨hi.1.dictUpdate kvs, ?_⟩, hs⟩
+    refine ⟨⟨hi.1, hi.2.1.dictUpdate kvs, ?_⟩, hs⟩
     intro h m hm
-    exact hi.2 h m hm
+    exact hi.2.2 h m hm
   | register cls =>
-    refine ⟨⟨hi.1, ?_⟩, hs⟩
+    refine ⟨⟨Registry.set_wf hi.1 cls, hi.2.1, ?_⟩, hs⟩
     intro h m hm
     simp only [stepCtx, Rules.fixed, Bool.and_true] at hm
-    cases hl : ctx.registry.lookup cls.provides with
-    | none =>
-      simp only [hl] at hm
-      obtain ⟨r₀, c₀, a, b, g⟩ := hi.2 h m (by simpa using hm)
-      exact ⟨r₀, c₀, a, b, goodMap_ext (Registry.extends_set (Or.inl hl)) g⟩
-    | some old =>
-      simp only [hl] at hm
-      by_cases e : old = cls
-      · subst e
-        simp at hm
-        obtain ⟨r₀, c₀, a, b, g⟩ := hi.2 h m hm
-        exact ⟨r₀, c₀, a, b, goodMap_ext (Registry.extends_set (Or.inr hl)) g⟩
-      · simp [e] at hm
+    cases hr : ctx.registry.replaces cls with
+    | true => simp [hr] at hm
+    | false =>
+      simp only [hr, Bool.false_eq_true, if_false] at hm
+      obtain ⟨r₀, c₀, a, b, g⟩ := hi.2.2 h m hm
+      exact ⟨r₀, c₀, a, b, goodMap_ext (Registry.extends_set hr) g⟩
   | newContext =>
-    refine ⟨⟨hi.1, ?_⟩, hs⟩
+    refine ⟨⟨hi.1, hi.2.1, ?_⟩, hs⟩
     intro h m hm
     simp [stepCtx] at hm
   | setFuzzy ff ffo =>
-    exact ⟨⟨hi.1, fun h m hm => hi.2 h m hm⟩, hs⟩
+    exact ⟨⟨hi.1, hi.2.1, fun h m hm => hi.2.2 h m hm⟩, hs⟩
   | lineage d =>
-    have hsp := getPlugin_spec (contextHash Rules.fixed H ctx.registry ctx.config) (fuelOf ctx.registry) d ctx.cache
+    have hsp := getPlugin_spec hi.1 (contextHash Rules.fixed H ctx.registry ctx.config) (fuelOf ctx.registry) d ctx.cache
       (hi.goodCache hH)
     have := hi.of_cacheStep hsp.toCacheStep
     simp only [stepCtx]
@@ -208,7 +201,8 @@ theorem stepCtx_inv {H : String → K} (hH : HashInj H) {ctx : Ctx K} (hi : CtxI
 def Inv (H : String → K) (s : State K) : Prop := CtxInv H s.main ∧ CtxInv H s.second ∧ StorageInv H s.storage
 
 theorem inv_init (H : String → K) : Inv H (State.init : State K) := by
-  refine ⟨⟨by simp [Ctx.empty, NodupKeys, State.init], ?_⟩, ⟨by simp [Ctx.empty, NodupKeys, State.init], ?_⟩, ?_⟩
+  refine ⟨⟨by simp [Ctx.empty, Registry.WF, State.init], by simp [Ctx.empty, NodupKeys, State.init], ?_⟩,
+    ⟨by simp [Ctx.empty, Registry.WF, State.init], by simp [Ctx.empty, NodupKeys, State.init], ?_⟩, ?_⟩
   · intro h m hm; simp [State.init, Ctx.empty] at hm
   · intro h m hm; simp [State.init, Ctx.empty] at hm
   · intro it hit; simp [State.init] at hit
@@ -256,7 +250,7 @@ theorem run_inv {H : String → K} (hH : HashInj H) {s : State K} (hi : Inv H s)
 def Ctx.fresh (ctx : Ctx K) : Ctx K := ⟨ctx.registry, ctx.config, [], [], none⟩
 
 theorem Ctx.fresh_inv {H : String → K} {ctx : Ctx K} (hi : CtxInv H ctx) : CtxInv H ctx.fresh :=
-  ⟨hi.1, by intro h m hm; simp [Ctx.fresh] at hm⟩
+  ⟨hi.1, hi.2.1, by intro h m hm; simp [Ctx.fresh] at hm⟩
 
 theorem getCore_data {rules : Rules} {H : String → K} {ctx : Ctx K} {s : List (Item K)} {d : String}
     {p : Lineage} {fz : Bool} (h : (getCore rules H ctx s d).1 = .data p fz) :
@@ -304,7 +298,7 @@ theorem getCore_no_stale {H : String → K} (hH : HashInj H) {ctx : Ctx K} (hi :
   -- the lineage of `d` is defined, so the context in use finds the plugin
   obtain ⟨_, ⟨n₁, L₁, hL₁, _⟩, _, _⟩ := hgood₀ d inst₀ hl₀
   have hfuel := lineage_fuel hL₁
-  have hsp := getPlugin_spec (contextHash Rules.fixed H ctx.registry ctx.config) (fuelOf ctx.registry) d ctx.cache
+  have hsp := getPlugin_spec hi.1 (contextHash Rules.fixed H ctx.registry ctx.config) (fuelOf ctx.registry) d ctx.cache
     (hi.goodCache hH)
   obtain ⟨inst₁, hres₁⟩ := hsp.complete L₁ hfuel
   obtain ⟨m₁, hm₁, hl₁⟩ := hsp.ok_mem inst₁ hres₁
